@@ -138,7 +138,7 @@ def fbody(i, calls):
     return b + [JR_RA, NOP]
 
 
-def link_model(prog_refs, funcs, externs):
+def link_model(prog_refs, funcs, externs, BASE=0x1000):
     """prog_refs: names the program calls in order; funcs: {name: body}; -> ('reject', why) | ('ok', words from BASE, symbols)"""
     words = []
     fix = []               # (word index, symbol)
@@ -171,7 +171,7 @@ def link_model(prog_refs, funcs, externs):
     return ("ok", words, placed)
 
 
-def program(cpu, refs, local_labels):
+def program(cpu, refs, local_labels, BASE=0x1000):
     lines = [".%s" % cpu, ".org 0x%x" % BASE, "main:"]
     for i, r in enumerate(refs):
         if local_labels and i == 1:
@@ -208,6 +208,7 @@ def cases(quick):
 
 
 def judge(cpu, g, refs, container, big, variant):
+    BASE = 0x80001000 if variant >= 6 else 0x1000          # above 2^28 the 26-bit jal field no longer holds the whole address
     funcs = {f: fbody(i, g[f]) for i, f in enumerate(g)}
     order = ("text", "rel", "symtab", "strtab", "shstrtab") if variant % 2 == 0 else ("strtab", "symtab", "text", "shstrtab", "rel")
     files = {}
@@ -233,8 +234,8 @@ def judge(cpu, g, refs, container, big, variant):
             members.append(("m%d.o" % i, elf_object([(n, body)], externs=ext, big=big, order=order)))
         files["lib.a"] = ar_archive(members, symindex=(container == "a"))
         argv = ["lib.a"]
-    src = program(cpu, refs, variant % 2 == 1)
-    exp = link_model(refs, funcs, [])
+    src = program(cpu, refs, variant % 2 == 1, BASE)
+    exp = link_model(refs, funcs, [], BASE)
     r = asm.assemble(src, "hex", args=("-dump_symbols",), files=files, extra_argv=argv)
     if r.kind != "ok":
         return "abnormal", "naken_asm ended with %s (status %s)" % (r.kind, r.status)
@@ -275,7 +276,7 @@ def run(ctx):
     for cpu, big in (("mips32", False), ("pic32", False), ("ps2_ee", False), ("mips", True)):
         for ci, (g, refs) in enumerate(cases(q)):
             for container in (("o", "a") if q else ("o", "2o", "a", "a-noindex")):
-                for variant in ((ci % 6,) if q else (0, 1, 2, 3, 4, 5)):
+                for variant in ((ci % 8,) if q else (0, 1, 2, 3, 4, 5, 6, 7)):
                     if q and cpu in ("pic32", "ps2_ee") and ci % 3:
                         continue
                     jobs.append((cpu, g, refs, container, big, variant))
